@@ -270,6 +270,23 @@ def run_in(case, ctx, d, tmp, refdir, cwd, actdir, systmp, out):
         with open(pre_act, 'w', encoding='utf-8') as f:
             f.write('first file\nline %s\nend\n'
                     % ((sub + ' NEW') if sub else 'same OLD'))
+    later = None
+    if (not binary and entry == 'assertTextFilesCorrect'
+            and not case['ref_missing'] and len(case['act']) % 2 == 0):
+        # a third pair, after the pair under test, that fails as well; its
+        # reference has the SAME base name (in another directory), its
+        # actual file another one; exclusions in force apply to it too
+        os.makedirs(os.path.join(refdir, 'other'))
+        later = (os.path.join(actdir, 'later-run.txt'),
+                 os.path.join(refdir, 'other', os.path.basename(ref_path)))
+        sub = (o['ignore_substrings'] or [None])[0]
+        mark = (o['remove_lines'] or [None])[0]
+        with open(later[1], 'w', encoding='utf-8') as f:
+            f.write('zqzq 1\nzqzq 2\nzqzq 3\n'
+                    + ('line %s OLD\n' % sub if sub else ''))
+        with open(later[0], 'w', encoding='utf-8') as f:
+            f.write('zqzq 1\n' + ('line %s NEW\n' % sub if sub else '')
+                    + ('%s zqzq removable\n' % mark if mark else ''))
     dirs = {'tmp_dir': tmp, 'reference-dir': refdir, 'cwd': cwd,
             'actual-dir': actdir, 'system-temp': systmp}
     if not binary and case.get('prior_failure'):
@@ -308,8 +325,12 @@ def run_in(case, ctx, d, tmp, refdir, cwd, actdir, systmp, out):
         # the pair under test comes second; the first pair agrees modulo an
         # excused line (when an ignore-substring is in force), so whatever
         # is reported and written is about the second pair only
-        ok, r = call(rt.assertTextFilesCorrect, [pre_act, act_path],
-                     [pre_ref, ref_path], **c04.kwargs_for(o))
+        ok, r = call(rt.assertTextFilesCorrect, [pre_act, act_path]
+                     + ([later[0]] if later else []),
+                     [pre_ref, ref_path] + ([later[1]] if later else []),
+                     **c04.kwargs_for(o))
+        if later:
+            out.label('a-later-pair-fails-too')
     else:
         ok, r = call(rt.assertTextFileCorrect, act_path, ref_path,
                      **c04.kwargs_for(o))
@@ -351,6 +372,7 @@ def run_in(case, ctx, d, tmp, refdir, cwd, actdir, systmp, out):
         return out
     raw = None
     post = None
+    about_later = False
     for (q, cmd, rest) in cmds:
         a, b = split_two_paths(rest, dirs)
         if a is None:
@@ -358,9 +380,15 @@ def run_in(case, ctx, d, tmp, refdir, cwd, actdir, systmp, out):
                         'cannot read two paths from %r' % rest)
             continue
         if q.startswith('post-processed'):
-            post = (cmd, a, b)
-        elif raw is None:
-            raw = (cmd, a, b)
+            if not about_later:
+                post = (cmd, a, b)
+        else:
+            # (each pair's plain command comes before its post-processed
+            # one; those of the later failing pair are not the ones judged)
+            about_later = bool(later) and os.path.realpath(a) == (
+                os.path.realpath(later[0]))
+            if raw is None and not about_later:
+                raw = (cmd, a, b)
         if not os.path.exists(a):
             out.violate('named-files-exist', 'actual:' + (q or 'plain'),
                         '%s: %s names %s, which does not exist'
@@ -398,6 +426,13 @@ def run_in(case, ctx, d, tmp, refdir, cwd, actdir, systmp, out):
         elif os.path.exists(a):
             with open(a, encoding='utf-8', newline='') as f:
                 content = f.read()
+            if case['ref_missing'] and content != act_text:
+                # the file the message offers for initialising the
+                # reference (cp ...) is the string as it was given
+                out.violate('actual-file-faithful', 'missing-ref:not-exact',
+                            'no reference: the string checked was %r but '
+                            'the file offered as its copy holds %r'
+                            % (act_text[-60:], content[-60:]))
             got_lines = lines_of_text(content)
             want_lines = list(lines_act)
             # the file is written without a final newline: trailing blank
